@@ -1151,7 +1151,7 @@ func main() {
 		if phys {
 			kind += "_phys"
 		}
-		runAnalyze(c, kind, rs, phys, w.measurements(rs[:20], n, base), good, bad, note)
+		runAnalyze(c, kind, rs, phys, w.measurements(mergedForMeasurements(rs[:20]), n, base), good, bad, note)
 	}
 
 	// Range.Intersect on raw values, including overflowing ones
@@ -1186,10 +1186,17 @@ func main() {
 // the places measurements are generated around: the given ranges (not merged;
 // any of them will do as an anchor)
 func mergedForMeasurements(given pkgbytes.Ranges) pkgbytes.Ranges {
-	if len(given) > 64 {
-		return given[:64]
+	var out pkgbytes.Ranges
+	for _, r := range given {
+		// (a broken Diff may hand back anything; anchors must stay usable as int)
+		if r.Offset < 1<<40 && r.Length < 1<<20 {
+			out = append(out, r)
+		}
+		if len(out) == 64 {
+			break
+		}
 	}
-	return given
+	return out
 }
 
 // fixedCases: the repository's own examples and the corner cases named in the property text.
